@@ -445,6 +445,14 @@ class Gen:
             else:
                 items.append(self.line(ints))
         self.f["stmt_faults"] = saved_sf
+        if self.p("conds") and r.random() < 0.3:
+            # a variable shown, changed inside a block (no statement at the outer level in between), shown again
+            v = r.choice(INT_VARS)
+            inner = [{"k": "stmt", "code": f"{v} = {v} + {r.randint(1, 3)}", "comment": None}]
+            blk = ({"k": "if", "branches": [(r.choice(["True", "1 == 1", f"{v} == {v}"]), inner)]} if r.random() < 0.6 or not self.p("loops")
+                   else {"k": "for", "var": "it", "coll": "[1, 2]", "body": inner})
+            items += [{"k": "line", "parts": [("t", "was "), ("e", v)], "glue": False, "tags": [], "comment": None}, blk,
+                      {"k": "line", "parts": [("t", "now "), ("e", v), ("t", " "), ("e", f"{v} + 0")], "glue": False, "tags": [], "comment": None}]
         # choices / join structure
         if self.p("join") and not params:
             self.count("join_passage")
